@@ -248,7 +248,7 @@ fn bytes(id: u64, stamp: Stamp, len: usize) -> Vec<u8> {
 }
 
 fn ks_name(i: usize) -> String {
-    ["alpha", "beta-2", "Gamma_\u{e9}"][i].to_string()
+    ["alpha", "beta-2", "Gamma_\u{e9}/../k v"][i].to_string()
 }
 
 /// The operations the check needs from a backend; implemented per store so that close/reopen can differ.
